@@ -118,8 +118,9 @@ PROPS = {
               "verdict = equality with an independently structured relational reference registry (Suite14.rstep) at every step; class 1 no round / 2 rounds / 3 rounds and acks; distinct = distinct input"),
         level_text=("Theorems over all histories (induction on the operation list): C14_invariant (every reachable state lists each endpoint at most once per resource), C14_register with C14_register_known_endpoint / C14_register_new_endpoint "
                     "(re-registration replaces in place: same position, new token, counters cleared; a new endpoint is appended last; other resources untouched), C14_deregister with C14_deregister_exact (given the invariant, exactly the observer whose endpoint and token both match is removed), "
-                    "C14_changed_unobserved (a round on an unobserved path is the identity)."),
-        level_note=("Hand-written model of observe.rs tied to the Rust by differential execution of ~4*10^4 histories per build with full-state comparison after every step (dev and release). The equality of the model with the relational reference is checked at run time on every case, not proved."),
+                    "C14_changed_unobserved (a round on an unobserved path is the identity), C14_model_refines_reference (a refinement proof: on every history inside the domain the states the model prints after each operation are exactly those of the relational reference the oracle uses -- "
+                    "rows (path, endpoint, token, count, pending, arrival stamp) plus a sequence table; the relation keeps the rows in stamp order and each resource's observer list equal to the rows on its path) and C14_model_passes_oracle (hence the model satisfies the suite-140 oracle on EVERY input outside the known-finding class)."),
+        level_note=("Hand-written model of observe.rs tied to the Rust by differential execution of ~4*10^4 histories per build with full-state comparison after every step (dev and release). The relational reference is an independently structured second specification: the model is proved to refine it (C14_model_refines_reference) and the implementation is compared with both on every case."),
         modelled="src/observe.rs Subject::{register, deregister, resource_changed, acknowledge, set_unacknowledged_limit, get_resource, get_resource_observers}",
     ),
     "C15": dict(
@@ -132,6 +133,7 @@ PROPS = {
                     "its increment never overflows, and the only reachable panic is site 40), C15_notification (create_notification is exactly version 1, CON/NON, 2.05, the given id, token, payload and Observe = minimal uint of the sequence). "
                     "C15_projection / C15_projection_run (projected on one (endpoint, path) pair the registry is a four-field automaton -- absent, or token, confirmable notifications since the last acknowledgement or registration, pending id -- for every reachable state and every history: "
                     "the observer is dropped exactly when that count exceeds the limit, non-confirmable rounds never count, only a matching acknowledgement from the same endpoint resets it). "
+                    "C15_model_passes_oracle150 / C15_model_passes_oracle140 (the model satisfies both run-time oracles on every input: the literal expected notification, and the relational reference in which a row's count is by construction the number of confirmable rounds since its registration or last matching acknowledgement). "
                     "Known finding KF_seq_wrap (C15_KF_seq_wrap_refuted): the u32 sequence cannot increase past 2^32-1."),
         level_note=("Model tied by differential execution with full-state comparison (hooks). 'Dropped exactly when the count of confirmable notifications since the last acknowledgement or registration exceeds the limit' is proved per round on the counter (C15_round), as a per-pair automaton over whole histories (C15_projection_run), and checked against the history-based relational reference at run time."),
         modelled="src/observe.rs resource_changed, acknowledge, create_notification; src/packet.rs set_observe_value",
@@ -156,7 +158,7 @@ PROPS = {
               "kind 1 decode over all byte strings of length <= 2, a 13x13x52 (thorough: complete) grid of length 3 and random strings of length 4..5, kind 2 BlockValue::new over num in {0..4097 strided, 4095..4097, 65535..65537, 2^32, usize::MAX} x sizes 0..8200 and 2^k-1, 2^k, 2^k+1 up to usize::MAX; "
               "verdict from the RFC 7959 formula only; class = kind; non-trivial = in range; distinct = distinct input"),
         level_text=("Theorems for all values: C13_roundtrip (every num < 65536, more, szx < 8: the encoding is the minimal uint NUM<<4|M<<3|SZX, decoding it returns the triple, size = 2^(szx+4)), C13_decode_total (every byte string: error iff longer than 3 bytes or NUM > 65535, "
-                    "otherwise the fields of its big-endian value), C13_new (every usize num and size: error iff size = 0, size >= 4096 or num >= 65536, otherwise exponent log2(size)-4 saturated at 0, with the 0..63 search loop proved equal to log2), C13_new_size (largest power of two not above the size, at least 16)."),
+                    "otherwise the fields of its big-endian value), C13_new (every usize num and size: error iff size = 0, size >= 4096 or num >= 65536, otherwise exponent log2(size)-4 saturated at 0, with the 0..63 search loop proved equal to log2), C13_new_size (largest power of two not above the size, at least 16), C13_model_passes_oracle (the model satisfies the suite's independent RFC 7959 2.2 specification spec130 on EVERY input, all three entry points)."),
         level_note="Hand-written model of block_value.rs tied to the Rust by differential execution (dev and release), close to exhaustive in the thorough tier.",
         modelled="src/block_handler/block_value.rs (BlockValue::new, largest_power_of_2_not_in_excess, size, From<BlockValue> for Vec<u8>, TryFrom<Vec<u8>>)",
     ),
